@@ -1358,10 +1358,13 @@ def gen_calls(rng, hot_rate=0.15):
 
 
 TYPE_POOL = [None, True, False, 0, -1, 1.5, 1e308, '', 'x', 'node', '*', [], [[1]], {}, {'a': 1}, [{'a': 1}], [None], [[]], 10 ** 30,
-             ['app'], [1, 2], 'M!', [['k', 'v']], [[1, 2]], {'value': 1}]
+             ['app'], [1, 2], 'M!', [['k', 'v']], [[1, 2]], {'value': 1},
+             # strings no identifier, type name or channel can hold: NUL, lone surrogates, very long
+             'bad\x00name', '\x00', '\ud800', 'a\udfffb', 'n' * 300 + '\x00', ' ', 'a b', 'a.b', '1', '__class__', 'é']
 HOSTILE_NAMES = ['generate_events', 'started', 'stopped', 'signal', 'exception', 'registered', 'unregistered', 'prepare_unregister',
                  'unregister', 'init', 'add_buffer', 'send', 'send_result', 'result_handler', 'write', 'read', 'close', 'connect',
-                 'disconnect', 'value_changed', 'h_ok_success', 'h_ok_done', '', '*', 'ready', 'task']
+                 'disconnect', 'value_changed', 'h_ok_success', 'h_ok_done', '', '*', 'ready', 'task',
+                 'bad\x00name', '\ud800', 'a b', '__init__', 'é']
 FIELDS_CALL = ['id', 'name', 'args', 'kwargs', 'success', 'failure', 'channels', 'notify', 'meta']
 FIELDS_VALUE = ['id', 'errors', 'value', 'meta']
 
